@@ -17,6 +17,7 @@ type Val struct {
 	Tup     []Val      // tuple components
 	SetElem types.Type // non-nil: T is a set (Array elem Bool) of this element type
 	Sort    string     // explicit sort for spec-only values (when Ty == nil)
+	Owned   bool       // a slice read from a field of an object owned by go/ssa, go/types, ...: indexed in the owned array heap
 }
 
 type PathStep struct {
@@ -61,6 +62,8 @@ type loopInfo struct {
 	preAlloc string
 	modRefs  map[string][]modT // heap base name -> declared modification targets
 	entryVals map[*ssa.Phi]Val // values of the header phis on loop entry (what pre(x) denotes for a loop variable)
+	otherInv  []string // invariants tagged for other properties, evaluated at the header (hypotheses of the frame obligations)
+	indirect  map[string]map[int]bool // heaps written through loaded pointers / maps, with the struct fields written (-1: any) (memo of indirectWrites)
 }
 
 // FnEnc encodes one function.
@@ -109,6 +112,7 @@ type localRef struct {
 	heap string
 	ref  string
 	esc  *escInfo // nil: the object never escapes; otherwise the program points from which it may have escaped
+	elem types.Type // the allocated type (struct objects: lets a loop preserve the fields it does not write)
 }
 
 // escInfo: for each block, the index of the first instruction at which the object may already be reachable by code
@@ -172,7 +176,8 @@ func (e *FnEnc) assumeUnder(g, fact string) {
 }
 
 func (e *FnEnc) oblige(o *Obligation) {
-	if e.con != nil && len(o.Tags) == 0 && o.Kind != "cover" && o.Kind != "bind" {
+	// (loop frames are assumed at the loop header whatever the property, so they are proved whatever the property)
+	if e.con != nil && len(o.Tags) == 0 && o.Kind != "cover" && o.Kind != "bind" && !(o.Kind == "frame" && strings.HasPrefix(o.Name, "loop")) {
 		for _, p := range e.con.ProtocolOnly {
 			if p == e.prop {
 				return // proved in the runs of the properties this function's functional clauses belong to
